@@ -69,20 +69,26 @@ PROPS['C13'] = dict(
     files=['pysmi/writer/localfile.py', 'pysmi/writer/pyfile.py', 'pysmi/writer/callback.py', 'pysmi/compat.py'],
     explanation=XH + '. C13: FileWriter/PyFileWriter/CallbackWriter.putData run on an in-memory file-system model; the '
                 'index of the failing system call, the fault kind (error / short write with a symbolic byte count), '
-                'presence of directory and destination, dry-run, byte-compile outcome and the module text are symbolic.',
+                'presence of directory and destination, dry-run, byte-compile outcome and the module text are symbolic. Concurrent writers: '
+                'two real putData() calls run in two threads over one shared model; every system call is a yield point and the thread that '
+                'proceeds is chosen by symbolic schedule bits in the traced main thread, so the solver explores every interleaving.',
     functions=['pysmi.writer.localfile.FileWriter.putData', 'pysmi.writer.pyfile.PyFileWriter.putData',
                'pysmi.writer.callback.CallbackWriter.putData', 'pysmi.compat.encode', 'pysmi.compat.decode'],
-    bounds='single fault at call index k<=8; text length <=3 (quick) / <=5 (thorough) over all characters except lone surrogates',
-    stubs=['ModelFS/FakeOs/FakeTempfile/FakePyCompile in harness/envstubs.py replace os, tempfile, py_compile in the writer modules'],
-    outside=['concurrent writers of the same module (schedules)', 'double faults (e.g. unlink failing during clean-up)',
+    bounds='single fault at call index k<=8; text length <=3 (quick) / <=5 (thorough) over all characters except lone surrogates; '
+           'concurrency: two writers of the same module, every interleaving of their system calls (16 symbolic schedule bits), '
+           'optionally one fault at the k-th call (k<=14) of the combined sequence',
+    stubs=['ModelFS/FakeOs/FakeTempfile/FakePyCompile in harness/envstubs.py replace os, tempfile, py_compile in the writer modules '
+           '(descriptors refer to inodes: a write after a concurrent rename lands in the renamed file)',
+           'cooperative scheduler (harness/c13_writers.py Sched): worker threads block at every model system call'],
+    outside=['more than two concurrent writers; pre-emption inside one system call (system calls are atomic in the model)', 'double faults (e.g. unlink failing during clean-up)',
              'real kernel semantics of rename', 'file-descriptor leaks'],
     assumptions=['os.write accepts at least the bytes it reports', 'a fault in os.close still releases the descriptor'])
 MANIFEST_TEXT['C13'] = dict(
     technique='CrossHair symbolic execution of the writers over an in-memory FS with symbolic fault schedule',
     level_text='Solver-exhaustive within bounds: every single-fault placement (error or short write of any size) x fresh/existing '
                'destination x dry-run x byte-compile outcome x every text up to the length bound; fault_enumeration done by the solver '
-               'rather than by enumeration.',
-    level_note='Trusted: CrossHair/z3 and its str.encode model; the in-memory FS model. Outside: concurrency, double faults, real rename.')
+               'rather than by enumeration; every interleaving of two concurrent writers of one module at system-call granularity.',
+    level_note='Trusted: CrossHair/z3 and its str.encode model; the in-memory FS model. Outside: >2 writers, double faults, real rename.')
 _finalise()
 
 PROPS['C10']['modules'] = ['harness.hcompile', 'harness.c10_searchers']
